@@ -168,7 +168,14 @@ class Gen:
         for n, e, r in g.rules:
             if r is not None:
                 collect_rules(r, refd)
-        missing = [n for n in names[1:] if n not in refd]
+        if self.p('parts') and len(names) > 1:
+            cand = [n for n in names[1:]]
+            g.parts = rng.sample(cand, rng.randint(1, min(2, len(cand))))
+            g.features.add('parts')
+        # a part rule is an entry point of its own: half of the time it stays unreferenced, so that
+        # the rules it calls are reachable only through it
+        free_parts = set(g.parts) if rng.random() < 0.5 else set()
+        missing = [n for n in names[1:] if n not in refd and n not in free_parts]
         if missing:
             n0, e0, r0 = g.rules[0]
             extra = [('rule', m) for m in missing]
@@ -177,10 +184,6 @@ class Gen:
             else:
                 r0 = ('cat', [('paren', r0)] + extra) if r0[0] in ('alt', 'choice') else ('cat', [r0] + extra)
             g.rules[0] = (n0, e0, r0)
-        if self.p('parts') and len(names) > 1:
-            cand = [n for n in names[1:]]
-            g.parts = rng.sample(cand, rng.randint(1, min(2, len(cand))))
-            g.features.add('parts')
         if g.right:
             g.features.add('right')
         return g
